@@ -55,9 +55,5 @@ def time_notes(
             if note.note_type == NoteType.TAP:
                 yield TimedNote(
                     time=engine.time_at(note.beat),
-                    note=Note(
-                        beat=note.beat,
-                        column=note.column,
-                        note_type=NoteType.FAKE,
-                    ),
+                    note=note._replace(note_type=NoteType.FAKE),
                 )
